@@ -289,6 +289,8 @@ def history(rng, version, length, profile):
     two = version >= "2.0"
     st = []
     nodes = [1, 2, 3]
+    # a third of the histories (when the profile asks for it) send the node table through the persistence file and back
+    reload_hist = bool(profile.get("reload")) and rng.random() < 0.34
     if profile.get("sleep") and two and rng.random() < 0.8:
         n = rng.choice(nodes)
         other = rng.choice([x for x in nodes if x != n])
@@ -386,4 +388,6 @@ def history(rng, version, length, profile):
             st.append(["in", wake_line(rng, version, rng.choice(nodes))])
         if profile.get("lag") and rng.random() < 0.08:
             st.append(["lag", rng.randint(1, 4)])
+        if profile.get("reload") and reload_hist and rng.random() < profile["reload"]:
+            st.append(["reload", rng.choice(["json", "pickle", "pickle"])])
     return st
